@@ -350,3 +350,54 @@ def register(mut):
     }''',
         '''    void unhandled_exception() {
     }''', ['C04'])
+    mut('queue-lifo-flush', 'coro_queue.h',
+        '''                auto h = std::move(_queue.front());
+                _queue.pop_front();
+                h.resume();''',
+        '''                auto h = std::move(_queue.back());
+                _queue.pop_back();
+                h.resume();''', ['C05'])
+    mut('pause-not-requeue-tail', 'coro_queue.h',
+        '''        auto &queue = coro_queue::instance->_queue;
+        queue.push_back(h);
+        h = queue.front();
+        queue.pop_front();
+        return h;''',
+        '''        auto &queue = coro_queue::instance->_queue;
+        queue.push_front(h);
+        h = queue.front();
+        queue.pop_front();
+        return h;''', ['C05'])
+    mut('sp-suspend-now-resumes-immediately', 'suspend_point.h',
+        '''            if (coro_queue::is_active()) {
+                for (auto x: *this) {
+                    coro_queue::instance->push(std::coroutine_handle<>::from_address(x));
+                }
+            } else {''',
+        '''            if (coro_queue::is_active() && size() > 1) {
+                for (auto x: *this) {
+                    coro_queue::instance->push(std::coroutine_handle<>::from_address(x));
+                }
+            } else {''', ['C05'])
+    mut('trailer-no-flush', 'coro_queue.h',
+        '''        auto x = trailer([&]{
+            instance->flush_queue();
+            instance = prev;
+        });''',
+        '''        auto x = trailer([&]{
+            if (instance->_queue.size() < 2) instance->flush_queue();
+            instance = prev;
+        });''', ['C05'])
+    mut('sp-await-self-not-last', 'suspend_point.h',
+        '''            //if not, include me.
+            if (!me_included) {
+                coro_queue::instance->push(h);
+            }
+            clear_internal();
+            return out;''',
+        '''            //if not, include me.
+            if (!me_included) {
+                coro_queue::instance->_queue.push_front(h);
+            }
+            clear_internal();
+            return out;''', ['C05'])
